@@ -1240,6 +1240,11 @@ class Intrinsics:
         if any(d.startswith("dataclass") for d in decos):
             self.dataclass_init(obj, cref, args, kwargs, frame)
             return obj
+        if any(isinstance(b, ast.Name) and b.id == "NamedTuple" for b in cref.node.bases):
+            # typing.NamedTuple: positional/keyword fields in declaration order (read through attribute names)
+            self.use("typing.NamedTuple construction: fields in declaration order, read by name")
+            self.dataclass_init(obj, cref, args, kwargs, frame)
+            return obj
         r = ex.repo.find_method(cref.mod, cref.node, "__init__")
         if r is None:
             return obj
